@@ -250,7 +250,8 @@ enum Flow {
 
 struct Machine<'a> {
   /// true: loop variables are assigned one after the other, in declaration order, each reading
-  /// the current values (what wasm_lowering.rs:425-441 and the TS printer emit);
+  /// the current values (what wasm_lowering.rs:425-441 and the TS printer emit) unless a loop value
+  /// is another loop variable, in which case LIR lowering snapshots all values first (c8954cc);
   /// false: all loop values are read first (parallel assignment).
   seq_loop: bool,
   heap: &'a Heap,
@@ -416,7 +417,13 @@ impl<'a> Machine<'a> {
       }
       Statement::Break(e) => return Ok(Flow::Break(self.eval(env, e)?)),
       Statement::While { loop_variables, statements, break_collector } => {
-        if self.seq_loop {
+        // lir_lowering.rs (fix c8954cc): when a loop value is another loop variable, all new
+        // values are first read into fresh temporaries; otherwise the backends assign in order.
+        let hazard = loop_variables.iter().any(|v| {
+          matches!(&v.loop_value, Expression::Variable(x)
+            if x.name != v.name && loop_variables.iter().any(|o| o.name == x.name))
+        });
+        if self.seq_loop && !hazard {
           for v in loop_variables {
             let x = self.eval(env, &v.initial_value)?;
             env.insert(v.name, x);
@@ -725,11 +732,84 @@ fn layout_line(hexsrc: &str) -> String {
   r.unwrap_or_else(|e| format!("panic {}", panic_msg(&e).replace('\n', " ")))
 }
 
+// ---------------------------------------------------------------------------------------------
+// lirloop: the real MIR -> LIR lowering of a `While` (loop-variable update, fix c8954cc)
+// ---------------------------------------------------------------------------------------------
+
+fn lir_e(heap: &Heap, e: &samlang_ast::lir::Expression) -> String {
+  use samlang_ast::lir::Expression as E;
+  match e {
+    E::Int32Literal(n) => format!("{n}"),
+    E::Int31Literal(n) => format!("j{n}"),
+    E::Variable(n, _) => n.as_str(heap).to_string(),
+    _ => "?".to_string(),
+  }
+}
+
+fn find_while<'a>(ss: &'a [samlang_ast::lir::Statement]) -> Option<&'a samlang_ast::lir::Statement> {
+  use samlang_ast::lir::Statement as S;
+  for s in ss {
+    match s {
+      S::While { .. } => return Some(s),
+      S::IfElse { s1, s2, .. } => {
+        if let Some(w) = find_while(s1).or_else(|| find_while(s2)) {
+          return Some(w);
+        }
+      }
+      S::SingleIf { statements, .. } => {
+        if let Some(w) = find_while(statements) {
+          return Some(w);
+        }
+      }
+      _ => {}
+    }
+  }
+  None
+}
+
+/// `lirloop | | <MIR text with one while>`: answer `vars n<-v … | casts t<-e …` (the casts are the
+/// `Cast` statements at the end of the lowered loop body).
+fn lirloop_line(rest: &str) -> String {
+  let rest = rest.split("##").next().unwrap_or("");
+  let parts: Vec<&str> = rest.splitn(3, '|').collect();
+  if parts.len() != 3 {
+    return "bad-line".to_string();
+  }
+  let mut heap = Heap::new();
+  let fs = match parse_program(&mut heap, parts[2]) {
+    Ok(f) => f,
+    Err(e) => return format!("bad-program {e}"),
+  };
+  let r = catch_unwind(AssertUnwindSafe(|| samlang_compiler::compile_mir_to_lir(&mut heap, sources_of(fs))));
+  let lir = match r {
+    Ok(l) => l,
+    Err(e) => return format!("panic {}", panic_msg(&e).replace('\n', " ")),
+  };
+  for f in &lir.functions {
+    if let Some(samlang_ast::lir::Statement::While { loop_variables, statements, .. }) = find_while(&f.body) {
+      let vars: Vec<String> =
+        loop_variables.iter().map(|v| format!("{}<-{}", v.name.as_str(&heap), lir_e(&heap, &v.loop_value))).collect();
+      let mut casts = Vec::new();
+      for s in statements.iter().rev() {
+        if let samlang_ast::lir::Statement::Cast { name, assigned_expression, .. } = s {
+          casts.push(format!("{}<-{}", name.as_str(&heap), lir_e(&heap, assigned_expression)));
+        } else {
+          break;
+        }
+      }
+      casts.reverse();
+      return format!("vars {} | casts {}", vars.join(" "), casts.join(" "));
+    }
+  }
+  "no-while".to_string()
+}
+
 fn main() {
   std::panic::set_hook(Box::new(|_| {}));
   for_each_line(|line| {
     let (k, rest) = line.split_once(' ').unwrap_or((line, ""));
     match k {
+      "lirloop" => lirloop_line(rest),
       "layout" => layout_line(rest.split_whitespace().next().unwrap_or("-")),
       "tailrec" | "tailstmt" | "cpe" | "cpesem" | "cpeprog" => pass_line(if k == "tailstmt" { "tailrec" } else { k }, rest),
       _ => "bad-line".to_string(),
